@@ -172,6 +172,7 @@ pub struct FieldVisitor {}
 pub struct Visitor {}
 impl Visitor {
 //@@ fn file=fe2o3-amqp-types/src/messaging/message/mod.rs impl=`~impl<'de,B>de::Visitor<'de>forVisitor<B>` name=visit_seq
+//@@ shape loops=while
 //@@ qmark
 //@@ generics
 //@@ nowhere
